@@ -6,9 +6,9 @@ export CARGO_NET_OFFLINE=true
 rm -rf $W; git -C /repo worktree prune; git -C /repo worktree add -q --detach $W HEAD || exit 2
 cd $W
 cp $OUT/demo.rs tests/seed_demo_$ID.rs
-echo "== demo WITHOUT patch"; cargo test --offline --target-dir $W/target --test seed_demo_$ID 2>&1 | grep -E "^test result|panicked|error" | head -5
+echo "== demo WITHOUT patch"; cargo test --offline --target-dir $W/target --test seed_demo_$ID 2>&1 | grep -E "^test result|^error" | head -3
 git apply $OUT/patch.diff || { echo "PATCH DOES NOT APPLY"; exit 2; }
-echo "== demo WITH patch"; cargo test --offline --target-dir $W/target --test seed_demo_$ID 2>&1 | grep -E "^test result|panicked|error" | head -5
+echo "== demo WITH patch"; cargo test --offline --target-dir $W/target --test seed_demo_$ID 2>&1 | grep -E "^test result|^error" | head -3
 rm tests/seed_demo_$ID.rs
-echo "== suite WITH patch"; cargo test --offline --target-dir $W/target --no-fail-fast 2>&1 | grep -E "^test result" | awk '{p+=$4; f+=$6} END {print "passed",p,"failed",f}'
+echo "== suite WITH patch (a binary that dies shows up as a signal line and a lower total than 1227)"; cargo test --offline --target-dir $W/target --no-fail-fast 2>&1 | grep -E "^test result|signal:|error: test failed" | awk '/^test result/ {p+=$4; f+=$6} /signal:|error: test failed/ {print "   " $0; bad=1} END {print "passed",p,"failed",f, (bad ? "TEST BINARY FAILED" : "")}'
 cd /; git -C /repo worktree remove --force $W
